@@ -4,7 +4,7 @@
    (raw grouping index, item) -- data[offset * n_items + item] -- for one or two grouping
    axes (2-D: array x categorical; 3-D: array x MR, array x cat x cat), alone (1-D), and
    for the 0-D nub; and NOT for three grouping axes (array x cat x MR ...), where the
-   code's [dim_order[::-1]] reverses the grouping axes as well ([numarr_four_axes_refuted]). *)
+   code used to reverse the grouping axes as well (repaired; [numarr_four_axes_former_witness]). *)
 From Coq Require Import QArith ZArith List Bool Lia Arith.
 From CC Require Import Base.XQ Base.ListX Spec.Survey Model.CubeCounts Model.NumArray
      Proofs.CubeCountsProofs.
@@ -30,10 +30,13 @@ Proof. intros H. rewrite dvalid_numarr, seq_nth by exact H. reflexivity. Qed.
 (* Dimensions.dimension_order of the cubes the code provides for: the array axis goes from
    the front to the back, the grouping axes keep their order *)
 Lemma dimension_order_numarr n gs :
-  length gs = 1 \/ length gs = 2 ->
+  gs <> [] ->
   dimension_order (numarr_dims n gs) = rotate_order (S (length gs)).
 Proof.
-  intros [H|H]; destruct gs as [|g1 [|g2 [|g3 gs]]]; simpl in H; try discriminate H; reflexivity.
+  intros H. destruct gs as [|g gs]; [contradiction|].
+  unfold dimension_order, numarr_dims, rotate_order. cbn [length].
+  replace (2 <=? S (S (length gs))) with true by (symmetry; apply Nat.leb_le; lia).
+  cbn [existsb]. unfold is_numarr at 1, numarr_dim. cbn [dk andb orb]. reflexivity.
 Qed.
 
 (* ------------------------------------------------------------------------------------ *)
@@ -90,16 +93,36 @@ Qed.
 (* ------------------------------------------------------------------------------------ *)
 (** * the valid tensor reads the response's cell *)
 
+(* with the rotation (the array axis moved to the back, nothing else) every number of
+   grouping axes reads the response's cell: this is what a repaired dimension_order gives *)
+Theorem rotate_order_reads n gs data i gidx :
+  length gidx = length gs ->
+  of_flat (permute (rotate_order (S (length gs))) (map dsize (numarr_dims n gs))) data
+          (permute (rotate_order (S (length gs))) (remap (map dvalid (numarr_dims n gs)) (i :: gidx)))
+  = numarr_cell n gs data (nth i (dvalid (numarr_dim n)) 0) (remap (map dvalid gs) gidx).
+Proof.
+  intros Hl. unfold numarr_cell, numarr_payload_shape, rotate_order, numarr_dims.
+  simpl length. replace (S (length gs) - 1) with (length gs) by lia.
+  unfold permute. rewrite !map_app. simpl. rewrite dsize_numarr.
+  assert (P : forall (l : list nat) a,
+            map (fun k => match k with 0 => a | S m => nth m l 0 end) (seq 1 (length l)) = l).
+  { intros l a. rewrite <- seq_shift, map_map. simpl.
+    clear. induction l as [|x l IH]; [reflexivity|].
+    simpl. f_equal. rewrite <- seq_shift, map_map. exact IH. }
+  assert (Lr : length (remap (map dvalid gs) gidx) = length gs).
+  { clear -Hl. revert gidx Hl. induction gs as [|g gs IH]; intros [|j ix] H; simpl in *;
+      try discriminate H; [reflexivity|]. f_equal. apply IH. injection H as H. exact H. }
+  rewrite <- (map_length dsize gs) at 1. rewrite P.
+  rewrite <- Lr at 1. rewrite P. reflexivity.
+Qed.
+
 Theorem numarr_valid_reads n gs data i gidx :
-  length gs = 1 \/ length gs = 2 -> length gidx = length gs ->
+  gs <> [] -> length gidx = length gs ->
   numarr_valid n gs data (i :: gidx)
   = numarr_cell n gs data (nth i (dvalid (numarr_dim n)) 0) (remap (map dvalid gs) gidx).
 Proof.
-  intros Hg Hl. unfold numarr_valid, take_valid_ord, raw_shape, numarr_cell, numarr_payload_shape.
-  rewrite (dimension_order_numarr n gs Hg).
-  destruct Hg as [Hg|Hg]; destruct gs as [|g1 [|g2 [|g3 gs]]]; simpl in Hg; try discriminate Hg;
-    destruct gidx as [|j1 [|j2 [|j3 gidx]]]; simpl in Hl; try discriminate Hl;
-    unfold numarr_dims, rotate_order, permute; simpl; rewrite dsize_numarr; reflexivity.
+  intros Hg Hl. unfold numarr_valid, take_valid_ord, raw_shape.
+  rewrite (dimension_order_numarr n gs Hg). apply rotate_order_reads. exact Hl.
 Qed.
 
 (* data[offset(grouping index) * n_items + item] *)
@@ -113,7 +136,7 @@ Proof.
 Qed.
 
 Theorem numarr_valid_offset n gs data i gidx :
-  length gs = 1 \/ length gs = 2 -> valid_idx_ok gs gidx -> i < n ->
+  gs <> [] -> valid_idx_ok gs gidx -> i < n ->
   numarr_valid n gs data (i :: gidx)
   = nth (offset (map dsize gs) (remap (map dvalid gs) gidx) 0 * n + i) data NaN.
 Proof.
@@ -126,7 +149,7 @@ Qed.
 (* whatever per-cell statistic F (of the grouping cell and the array item) the response was
    laid out from, the output cell (item i, valid grouping elements gidx) is F of that cell *)
 Theorem numarr_reports_cell_statistic n gs (F : tensor) i gidx :
-  length gs = 1 \/ length gs = 2 -> valid_idx_ok gs gidx -> i < n ->
+  gs <> [] -> valid_idx_ok gs gidx -> i < n ->
   numarr_valid n gs (flatten (numarr_payload_shape n gs) F) (i :: gidx)
   = F (remap (map dvalid gs) gidx ++ [i]).
 Proof.
@@ -169,7 +192,7 @@ Proof.
   { unfold slice_tensor, slice_at. simpl.
     change (take_valid_ord (numarr_dims n [g]) (of_flat (raw_shape (numarr_dims n [g])) data))
       with (numarr_valid n [g] data).
-    rewrite (numarr_valid_reads n [g] data i [j] (or_introl eq_refl) eq_refl).
+    rewrite (numarr_valid_reads n [g] data i [j]); [| discriminate | reflexivity].
     rewrite (numarr_item n i Hi). reflexivity. }
   destruct g as [k ms]. simpl in Hk. subst k.
   unfold slice_passthrough, slice_counts, slice_info_of, numarr_dims. simpl.
@@ -193,7 +216,7 @@ Proof.
   { unfold slice_tensor, slice_at. simpl.
     change (take_valid_ord (numarr_dims n gs) (of_flat (raw_shape (numarr_dims n gs)) data))
       with (numarr_valid n gs data).
-    rewrite (numarr_valid_reads n gs data i [j; 0] (or_intror eq_refl) eq_refl).
+    rewrite (numarr_valid_reads n gs data i [j; 0]); [| unfold gs; discriminate | reflexivity].
     rewrite (numarr_item n i Hi). reflexivity. }
   unfold slice_passthrough, slice_counts, slice_info_of, numarr_dims, gs. simpl.
   rewrite !nvalid_numarr.
@@ -212,41 +235,20 @@ Proof.
 Qed.
 
 (* ------------------------------------------------------------------------------------ *)
-(** * three grouping axes (array x categorical x MR): the code reverses ALL axes, the
-      response only has the array axis at the back -- it reads a different cell *)
+(** * three grouping axes (array x categorical x MR): the former witness of the repaired defect
+      C01-numarr-four-axes (the code reversed ALL axes and read another cell) now reads the cell of
+      the response, like every other shape *)
 
-Theorem numarr_four_axes_refuted :
-  exists n gs data i gidx,
-    length gs = 3 /\ i < n /\ valid_idx_ok gs gidx /\
-    numarr_valid n gs data (i :: gidx)
-    <> numarr_cell n gs data i (remap (map dvalid gs) gidx).
+Theorem numarr_four_axes_former_witness :
+  let n := 2 in
+  let gs := [mkDim DCat [false; false]; mkDim DMrSubvar [false; false; false];
+             mkDim DMrCat mr_cat_missing] in
+  let data := map (fun k => Fin (inject_Z (Z.of_nat k))) (seq 0 36) in
+  length gs = 3 /\ valid_idx_ok gs [1; 0; 0] /\
+  numarr_valid n gs data (0 :: [1; 0; 0]) = numarr_cell n gs data 0 (remap (map dvalid gs) [1; 0; 0]).
 Proof.
-  exists 2, [mkDim DCat [false; false]; mkDim DMrSubvar [false; false; false];
-             mkDim DMrCat mr_cat_missing],
-         (map (fun k => Fin (inject_Z (Z.of_nat k))) (seq 0 36)), 0, [1; 0; 0].
-  split; [reflexivity|]. split; [lia|]. split; [simpl; unfold nvalid; simpl; lia|].
-  vm_compute. intro H. discriminate H.
+  cbv zeta. split; [reflexivity|]. split; [simpl; unfold nvalid; simpl; lia|].
+  vm_compute. reflexivity.
 Qed.
 
-(* with the rotation (the array axis moved to the back, nothing else) every number of
-   grouping axes reads the response's cell: this is what a repaired dimension_order gives *)
-Theorem rotate_order_reads n gs data i gidx :
-  length gidx = length gs ->
-  of_flat (permute (rotate_order (S (length gs))) (map dsize (numarr_dims n gs))) data
-          (permute (rotate_order (S (length gs))) (remap (map dvalid (numarr_dims n gs)) (i :: gidx)))
-  = numarr_cell n gs data (nth i (dvalid (numarr_dim n)) 0) (remap (map dvalid gs) gidx).
-Proof.
-  intros Hl. unfold numarr_cell, numarr_payload_shape, rotate_order, numarr_dims.
-  simpl length. replace (S (length gs) - 1) with (length gs) by lia.
-  unfold permute. rewrite !map_app. simpl. rewrite dsize_numarr.
-  assert (P : forall (l : list nat) a,
-            map (fun k => match k with 0 => a | S m => nth m l 0 end) (seq 1 (length l)) = l).
-  { intros l a. rewrite <- seq_shift, map_map. simpl.
-    clear. induction l as [|x l IH]; [reflexivity|].
-    simpl. f_equal. rewrite <- seq_shift, map_map. exact IH. }
-  assert (Lr : length (remap (map dvalid gs) gidx) = length gs).
-  { clear -Hl. revert gidx Hl. induction gs as [|g gs IH]; intros [|j ix] H; simpl in *;
-      try discriminate H; [reflexivity|]. f_equal. apply IH. injection H as H. exact H. }
-  rewrite <- (map_length dsize gs) at 1. rewrite P.
-  rewrite <- Lr at 1. rewrite P. reflexivity.
-Qed.
+
